@@ -169,6 +169,27 @@ def generate(seed, tier):
     g.rev("hrevolve", 7, 1, 1, COSTS[0], comp="stream.hrevolve.forloop")
     for i in range(k0, len(g.cases)):
         g.cases[i] = re.sub(r" r(\d+):(\d+)", lambda m: " " + " ".join(["%s1:%s" % ("L" if (i + j) % 2 == 0 else "l", m.group(2)) for j in range(int(m.group(1)))]), g.cases[i])
+    # ... and loops that are left anywhere: the first `for` loop takes k actions (k = 1, 2, 3, 5, 8, ... inside the forward calculation,
+    # inside the adjoint one) and is left with break, further loops finish the calculation
+    k1 = len(g.cases)
+    for N, ram, disk, tr in [(5, 0, 2, "max"), (7, 2, 1, "rev"), (12, 1, 2, "max")]:
+        g.multistage(N, ram, disk, tr, comp="stream.multistage.forbreak")
+    for N, s_, kind in [(6, 2, "memo"), (9, 3, "tab")]:
+        g.mixed(N, s_, "DISK" if N % 2 else "RAM", kind, comp="stream.mixed.forbreak")
+    g.twolevel(7, 3, 1, "RAM", "max", 2, comp="stream.twolevel.forbreak")
+    g.basic("disk0", 4, 2, comp="stream.basic.forbreak")
+    for kind, N, r, d in [("revolve", 7, 2, 0), ("disk", 8, 1, 0), ("hrevolve", 8, 1, 1)]:
+        g.rev(kind, N, r, d, COSTS[0], comp="stream." + kind + ".forbreak")
+    extra = []
+    for i in range(k1, len(g.cases)):
+        base = re.sub(r" r(\d+):(\d+)", lambda m: " " + " ".join(["l1:%s" % m.group(2)] * int(m.group(1))), g.cases[i])
+        head, ops = base.rsplit(" | ", 1)
+        ops = ops.split()
+        first = next(q for q, o in enumerate(ops) if o[0] in "lL")
+        cid = head.split()[1]
+        for j, kk in enumerate((1, 2, 3, 5, 8, 13)):
+            extra.append(head.replace(cid, cid.split(":")[0] + ":%d" % (1000 * j + int(cid.split(":")[1])), 1) + " | " + " ".join(ops[:first] + ["b%d" % kk] + ops[first:]))
+    g.cases[k1:] = extra
     # small problems first, then larger ones of the same class, in ONE interpreter (runner: components ending in .seq): state kept at
     # module level between schedules (memo tables that grow, caches keyed too coarsely) shows when a later, larger problem reuses it
     for N, s_, kind in [(4, 2, "memo"), (6, 3, "memo"), (30, 8, "memo"), (256, 2, "memo"), (257, 3, "memo"), (300, 8, "memo"), (12, 4, "memo")]:
@@ -248,6 +269,15 @@ def generate(seed, tier):
                              ("periodic", 300, 3, 0, COSTS[0]), ("hrevolve", 270, 3, 2, COSTS[0])] + \
                             ([("revolve", 420, 7, 0, COSTS[0]), ("hrevolve", 330, 2, 4, (1, 1, 1, 3)), ("disk", 380, 2, 0, (3, 1, 1, 1))] if thorough else []):
         g.rev(kind, N, r, d, c)
+    # a forward step dearer than a disk round trip (uf > wd + rd: the period of the periodic schedule is 1) with more memory slots than
+    # that, up to six
+    for c in [(5, 1, 2, 2), (3, 1, 1, 1), (4, 1, 0, 1), (9, 2, 3, 4)]:
+        for r in ((2, 3, 4, 5, 6) if thorough else (2, 4, 6)):
+            for N in ((5, 6, 7, 9, 14) if thorough else (5, 9, 14)):
+                g.rev("revolve", N, r, 0, c)
+                g.rev("disk", N, r, 0, c)
+                g.rev("periodic", N, r, 0, c)
+                g.rev("hrevolve", N, r, 1 + (N + r) % 2, c)
     # many nested disk checkpoints: cheap disk storage next to an expensive forward step, one or two memory slots (round 9)
     for kind, N, r, d, c in [("disk", 270, 1, 0, (3, 2, 1, 0)), ("periodic", 270, 1, 0, (3, 2, 1, 0)), ("revolve", 270, 1, 0, (3, 2, 1, 0)), ("disk", 300, 2, 0, (4, 1, 1, 1))] + \
                             ([("disk", 400, 1, 0, (3, 2, 1, 0)), ("disk", 330, 1, 0, (5, 1, 1, 1)), ("hrevolve", 300, 1, 3, (4, 1, 1, 1))] if thorough else []):
